@@ -509,6 +509,371 @@ def lin_oracle(line, ans):
     return None, nonempty
 
 
+# ---------------------------------------------------------------- "bool": boolean operations
+
+# minimal histories of the boolean findings (run first on every domain)
+BOOL_CORPUS = [
+    # dual_set_domain::at in the wrong direction: havoc of a boolean leaves it in the sets of size >= 2 of the others (bool-1)
+    "hist 2 2 3 ; bbin 0 and 2 0 1 ; havoc 0 3 ; bassume 0 2 0 ; q_bat 0 1",
+    "hist 2 2 3 ; bbin 0 and 2 0 1 ; bforget 0 0 ; bassume 0 2 0 ; q_bat 0 0",
+    # a constraint whose variable changed is revived when another boolean is assigned from a constraint over the
+    # same variable, or by the meet with a value in which the variable is unchanged (bool-2)
+    "hist 2 2 ; bassign 0 0 C le E 1 1 0 0 ; assign 0 0 E 0 5 ; bassign 0 1 C le E 1 1 0 -10 ; bassume 0 0 0 ; q_bat 0 0 ; q_bat 0 1",
+    "hist 3 2 ; bassign 0 0 C le E 1 1 0 0 ; arith 0 add 0 0 k 10 ; bassign 1 1 C le E 1 -1 0 3 ; meet 2 0 1 ; bassume 2 0 0 ; q_at 2",
+    "hist 3 2 ; bassign 0 0 C le E 1 1 0 0 ; arith 0 add 0 0 k 10 ; bassign 1 1 C le E 1 -1 0 3 ; narrow 2 0 1 ; bassume 2 0 0 ; q_at 2",
+    # forget / project / rename / expand return early when the product is top although constraints are remembered (bool-3)
+    "hist 2 2 ; bassign 0 0 C le E 1 1 0 0 ; forget 0 1 0 ; bassume 0 0 0",
+    "hist 2 2 ; bassign 0 0 C le E 1 1 0 0 ; project 0 1 1 ; bassume 0 0 0",
+    "hist 2 2 ; bassign 0 0 C le E 1 1 0 0 ; forget 0 1 0 ; expand 0 1 0 ; bassume 0 0 0",
+    "hist 2 2 ; bassign 0 0 C le E 1 1 0 0 ; forget 0 1 0 ; rename 0 1 1 0 ; bassume 0 0 0",
+    # b := constant constraint / not b' with nothing remembered for b' / trunc keep what was remembered for b (bool-4)
+    "hist 2 2 ; bassign 0 0 C le E 1 1 0 0 ; bassign 0 0 C le E 0 0 ; bassume 0 0 0",
+    "hist 2 2 ; bassign 0 0 C le E 1 1 0 0 ; bforget 0 1 ; bcopy 0 0 1 1 ; bassume 0 0 0",
+    "hist 2 2 ; bassign 0 0 C le E 1 1 0 0 ; bfromint 0 0 1 ; bassume 0 0 0 ; q_at 0",
+    # b1 := b0 ; b0 := ... ; assume(b1) makes the new b0 true (bool-5)
+    "hist 2 2 ; bcopy 0 1 0 0 ; bassign 0 0 C le E 1 1 0 0 ; bassume 0 1 0 ; q_bat 0 0",
+    "hist 2 2 3 ; bbin 0 and 2 0 1 ; bcopy 0 0 0 1 ; bassume 0 2 0 ; q_bat 0 0",
+    # inclusion ignores the remembered constraints (bool-6)
+    "hist 3 2 ; bassign 1 0 C le E 1 1 0 0 ; q_leq 0 1 ; leqprobe 2 0 1 0 0",
+    "hist 3 2 ; bcopy 1 1 0 0 ; q_leq 0 1 ; leqprobe 2 0 1 1 0",
+    # negation of a constraint that is only implied by the result of select_bool (bool-7)
+    "hist 2 2 4 ; bassign 0 0 C le E 1 1 0 0 ; bforget 0 1 ; bassign 0 3 C lt E 0 0 ; bselect 0 2 0 1 3 ; bcopy 0 3 2 1 ; bassume 0 3 0 ; q_bat 0 2",
+    "hist 2 2 4 ; bassign 0 0 C le E 1 1 0 0 ; bforget 0 1 ; bassign 0 3 C lt E 0 0 ; bselect 0 2 0 3 1 ; bcopy 0 3 2 1 ; bassume 0 3 0 ; q_bat 0 2",
+    # numerical domains: boolean assignments are no-ops, b := trunc(v) is not
+    "hist 2 2 ; assign 0 0 E 0 1 ; bfromint 0 0 0 ; bassign 0 0 C le E 1 1 1 0 ; q_bat 0 0 ; cast 0 zext 1 2 ; q_at 0",
+    "hist 2 2 ; cast 0 zext 0 2 ; bcopy 0 0 0 1 ; cast 0 zext 1 2 ; q_csts 0",
+    # plain reductions that must stay sound
+    "hist 2 2 ; bassign 0 0 C le E 1 1 0 0 ; bassume 0 0 0 ; q_at 0 ; q_csts 0 ; q_entails 0 C le E 1 1 0 0",
+    "hist 2 2 ; bassign 0 0 C le E 1 1 0 0 ; bassume 0 0 1 ; q_at 0 ; q_csts 0",
+    "hist 3 2 ; assign 0 0 E 0 1 ; assign 1 0 E 0 -1 ; bassign 0 0 C le E 1 1 0 0 ; bassign 1 0 C le E 1 1 0 0 ; join 2 0 1 ; q_bat 2 0 ; bassume 2 0 0 ; q_at 2",
+    "hist 2 2 3 ; bassign 0 0 C le E 1 1 0 0 ; bassign 0 1 C le E 1 -1 1 1 ; bbin 0 and 2 0 1 ; bassume 0 2 0 ; q_at 0 ; q_bat 0 0 ; q_bat 0 1",
+    "hist 2 2 3 ; bassign 0 0 C le E 1 1 0 0 ; bassign 0 1 C le E 1 -1 1 1 ; bbin 0 or 2 0 1 ; bassume 0 2 1 ; q_at 0 ; q_bat 0 0 ; q_bat 0 1",
+    "hist 2 2 3 ; bassign 0 0 C le E 1 1 0 0 ; bassign 0 1 C le E 1 -1 1 1 ; bbin 0 xor 2 0 1 ; bassume 0 2 0 ; q_at 0 ; q_bat 0 0 ; q_bat 0 1",
+]
+
+
+def _bcst(rng, nv, const_p=0.08):
+    """a small constraint for b := (constraint)"""
+    kind = rng.choice(["le", "le", "le", "lt", "eq", "ne"])
+    k = rng.randint(-3, 3)
+    sh = rng.random()
+    if sh < const_p:
+        return "C %s E 0 %d" % (kind, rng.choice([0, 0, 1, -1]))
+    x = rng.randrange(nv)
+    if sh < 0.7 or nv < 2:
+        return "C %s E 1 %d %d %d" % (kind, rng.choice([1, -1]), x, k)
+    y = rng.choice([v for v in range(nv) if v != x])
+    a, b = min(x, y), max(x, y)
+    sg = rng.choice([1, -1])
+    return "C %s E 2 %d %d %d %d %d" % (kind, sg, a, rng.choice([-sg, -sg, sg]), b, k)
+
+
+def _cst_vars(c):
+    t = c.split()
+    n = int(t[3])
+    return [int(t[5 + 2 * i]) for i in range(n)]
+
+
+def _modify(rng, r, x, nv, nb):
+    """operations (a list) after which the integer variable x of register r may hold another value"""
+    y = rng.randrange(nv)
+    k = rng.randint(-3, 3)
+    m = rng.randrange(13)
+    if m == 0:
+        return ["assign %d %d E 0 %d" % (r, x, k)]
+    if m == 1:
+        return ["assign %d %d E 1 1 %d %d" % (r, x, x, rng.choice([1, -1, 2]))]
+    if m == 2:
+        return ["assign %d %d E 1 %d %d %d" % (r, x, rng.choice([1, -1]), y, k)]
+    if m == 3:
+        return ["arith %d %s %d %d k %d" % (r, rng.choice(["add", "sub", "mul"]), x, rng.choice([x, y]), rng.choice([1, 2, -1, 3]))]
+    if m == 4:
+        return ["forget %d 1 %d" % (r, x)]
+    if m == 5:
+        return ["havoc %d %d" % (r, x)]
+    if m == 6:
+        return ["select %d %d %s E 0 %d E 1 1 %d 1" % (r, x, _bcst(rng, nv, 0), k, y)]
+    if m == 7:
+        return ["wassign %d %d E 0 %d" % (r, x, k)]
+    if m == 8:
+        return ["cast %d zext %d %d" % (r, x, nv + rng.randrange(nb))]
+    if m == 9 and nv >= 2:
+        y = rng.choice([v for v in range(nv) if v != x])
+        return ["forget %d 1 %d" % (r, x), "expand %d %d %d" % (r, y, x)]
+    if m == 10 and nv >= 2:
+        y = rng.choice([v for v in range(nv) if v != x])
+        return ["forget %d 1 %d" % (r, x), "rename %d 1 %d %d" % (r, y, x)]
+    if m == 11:
+        keep = [v for v in range(nv + nb) if v != x]
+        return ["project %d %d %s" % (r, len(keep), " ".join(map(str, keep)))]
+    return ["arith %d sdiv %d %d k %d" % (r, x, x, rng.choice([2, -2, 3]))]
+
+
+def _bool_op(rng, r, nv, nb, known):
+    """one random boolean operation on register r; `known` = booleans assigned so far (preferred as operands)"""
+    def old():
+        return rng.choice(known) if known and rng.random() < 0.8 else rng.randrange(nb)
+    b = rng.randrange(nb)
+    m = rng.randrange(12)
+    if m <= 2:
+        o = "bassign %d %d %s" % (r, b, _bcst(rng, nv))
+    elif m <= 4:
+        o = "bcopy %d %d %d %d" % (r, b, old(), rng.randrange(2))
+    elif m <= 6:
+        o = "bbin %d %s %d %d %d" % (r, rng.choice(["and", "and", "or", "xor"]), b, old(), old())
+    elif m == 7:
+        o = "bselect %d %d %d %d %d" % (r, b, old(), old(), old())
+    elif m == 8:
+        o = rng.choice(["bwassign %d %d %s" % (r, b, _bcst(rng, nv)), "bwcopy %d %d %d %d" % (r, b, old(), rng.randrange(2))])
+    elif m == 9:
+        o = rng.choice(["bforget %d %d" % (r, b), "havoc %d %d" % (r, nv + b)])
+    elif m == 10:
+        o = "bassign %d %d %s" % (r, b, rng.choice(["C lt E 0 0", "C le E 0 0", "C eq E 0 1", "C ne E 0 0", "C ne E 0 2"]))
+    else:
+        o = "bfromint %d %d %d" % (r, b, rng.randrange(nv))
+    if b not in known:
+        known.append(b)
+    return o
+
+
+def bool_histories(seed, n, prop="C03", asc_widen=False):
+    """scripted histories on the case splits of the boolean half of the domains
+    (flat_boolean_numerical_domain remembers `b := constraint` and re-applies the constraint on
+    assume_bool(b) unless one of its variables changed):
+      setup    bounds / constants on some integer variables (so that some booleans are decided),
+               sometimes a second register made by copy
+      reify    b := constraint (also constant constraints), on one or two registers, sometimes on
+               one branch only
+      perturb  a variable of a remembered constraint is reassigned / forgotten / havocked /
+               renamed / expanded / projected away, possibly followed by a new `b' := constraint`
+               over the same variable; (negated) copy chains; and/or/xor of two reified
+               constraints; select_bool with decided operands; weak assignments; b := trunc(v)
+      combine  join / meet / widening / narrowing of two registers that went through different
+               perturbations
+      observe  assume_bool of a boolean or its negation, then the boxes, every boolean, the
+               exported constraints; inclusion queries between the register that knows a
+               boolean and the one that does not, each followed by a probe
+               (leqprobe: assume_bool on a copy of the right operand)
+    followed (last third) by random mixes of all boolean and numerical operations."""
+    rng = random.Random(seed)
+    out = []
+    for i in range(n):
+        nv = rng.choice([2, 2, 3])
+        nb = rng.choice([2, 2, 3, 3, 4])
+        head = "hist 4 %d%s" % (nv, "" if nb == 2 else " %d" % nb)
+        ops = []
+        known = []
+        if i * 3 >= n * 2:
+            # random mix
+            for _ in range(rng.randint(5, 16)):
+                r = rng.randrange(3)
+                x = rng.random()
+                if x < 0.45:
+                    ops.append(_bool_op(rng, r, nv, nb, known))
+                elif x < 0.6:
+                    ops.append("bassume %d %d %d" % (r, rng.choice(known) if known else rng.randrange(nb), rng.randrange(2)))
+                elif x < 0.72:
+                    ops += _modify(rng, r, rng.randrange(nv), nv, nb)
+                elif x < 0.8:
+                    v = rng.randrange(nv); c = rng.randint(-3, 3)
+                    ops.append(rng.choice(["assume %d 1 C le E 1 1 %d %d" % (r, v, c), "assume %d 1 C le E 1 -1 %d %d" % (r, v, c),
+                                           "assume %d 1 %s" % (r, _bcst(rng, nv, 0))]))
+                elif x < 0.9:
+                    ops.append("%s %d %d %d" % (rng.choice(["join", "join", "meet", "widen", "narrow", "copy"]), r, rng.randrange(3), rng.randrange(3)))
+                    if ops[-1].startswith("copy"):
+                        ops[-1] = "copy %d %d" % (r, rng.randrange(3))
+                else:
+                    s, t = rng.randrange(3), rng.randrange(3)
+                    ops.append("q_leq %d %d" % (s, t))
+                    ops.append("leqprobe 3 %d %d %d %d" % (s, t, rng.choice(known) if known else rng.randrange(nb), rng.randrange(2)))
+                if rng.random() < 0.25:
+                    ops.append(rng.choice(["q_bat %d %d" % (r, rng.randrange(nb)), "q_csts %d" % r, "q_at %d" % r]))
+            r = rng.randrange(3)
+            ops.append("bassume %d %d %d" % (r, rng.choice(known) if known else 0, rng.randrange(2)))
+            ops.append("q_csts %d" % r)
+            for b in range(nb):
+                ops.append("q_bat %d %d" % (r, b))
+        else:
+            two = rng.random() < (0.75 if prop == "C04" else 0.45)
+            regs = [0, 1] if two else [0]
+            # setup
+            for v in range(nv):
+                x = rng.random()
+                c = rng.randint(-3, 3)
+                if x < 0.25:
+                    ops.append("assign 0 %d E 0 %d" % (v, c))
+                elif x < 0.5:
+                    ops.append("assume 0 2 C le E 1 -1 %d %d C le E 1 1 %d %d" % (v, c, v, -(c + rng.randint(0, 3))))
+                elif x < 0.6:
+                    ops.append("assume 0 1 C le E 1 %d %d %d" % (rng.choice([1, -1]), v, c))
+            cs = {}
+            early = two and rng.random() < 0.5
+            if two and not early:
+                ops.append("copy 1 0")
+            # reify
+            for _ in range(rng.randint(1, min(3, nb))):
+                b = rng.randrange(nb)
+                c = _bcst(rng, nv)
+                r = rng.choice(regs) if (two and not early) else 0
+                ops.append("bassign %d %d %s" % (r, b, c))
+                cs[b] = c
+                if b not in known:
+                    known.append(b)
+                if two and not early and rng.random() < 0.5:
+                    # the same or another constraint on the other register
+                    c2 = c if rng.random() < 0.5 else _bcst(rng, nv)
+                    ops.append("bassign %d %d %s" % (1 - r, b, c2))
+            if early:
+                ops.append("copy 1 0")
+            # perturb
+            focus = []
+            for r in regs:
+                for _ in range(rng.choice([0, 1, 1, 2, 3])):
+                    x = rng.random()
+                    b = rng.choice(known)
+                    vs = _cst_vars(cs[b]) if b in cs else []
+                    others = [y for y in range(nb) if y != b]
+                    if x < 0.3:
+                        v = rng.choice(vs) if vs and rng.random() < 0.85 else rng.randrange(nv)
+                        ops += _modify(rng, r, v, nv, nb)
+                        if rng.random() < 0.45:
+                            # a new constraint over the changed variable
+                            b2 = rng.randrange(nb)
+                            ops.append("bassign %d %d C %s E 1 %d %d %d" % (r, b2, rng.choice(["le", "lt", "ne", "eq"]), rng.choice([1, -1]), v, rng.randint(-3, 3)))
+                            if b2 not in known:
+                                known.append(b2)
+                            cs.pop(b2, None)
+                        focus.append(b)
+                    elif x < 0.42:
+                        # the reified boolean is overwritten, the variables of its constraint are not
+                        u = rng.choice(others)
+                        w = rng.randrange(7)
+                        if w == 0:
+                            ops.append("bassign %d %d %s" % (r, b, rng.choice(["C le E 0 0", "C lt E 0 0", "C eq E 0 0", "C ne E 0 0", "C le E 0 1"])))
+                        elif w <= 2:
+                            # (negated) copy of a boolean for which nothing is remembered
+                            ops.append(rng.choice(["bforget %d %d" % (r, u), "havoc %d %d" % (r, nv + u), "bbin %d %s %d %d %d" % (r, rng.choice(["or", "xor"]), u, u, b),
+                                                   "forget %d 1 %d" % (r, nv + u)]))
+                            ops.append("bcopy %d %d %d %d" % (r, b, u, 1 if w == 1 else rng.randrange(2)))
+                        elif w == 3:
+                            ops.append("bfromint %d %d %d" % (r, b, rng.randrange(nv)))
+                        elif w == 4:
+                            ops.append("bbin %d %s %d %d %d" % (r, rng.choice(["and", "or", "xor"]), b, rng.choice([b, u]), u))
+                        elif w == 5:
+                            ops.append("bselect %d %d %d %d %d" % (r, b, u, rng.choice([b, u]), rng.randrange(nb)))
+                        else:
+                            ops.append(rng.choice(["bwcopy %d %d %d %d" % (r, b, u, rng.randrange(2)), "bwassign %d %d %s" % (r, b, _bcst(rng, nv))]))
+                        cs.pop(b, None)
+                        focus.append(b)
+                    elif x < 0.54:
+                        # an alias of b (copy, or a conjunction with b), then b or the other conjunct is overwritten / forgotten
+                        al = rng.choice(others)
+                        o2 = rng.choice(others)
+                        if rng.random() < 0.5:
+                            ops.append("bcopy %d %d %d 0" % (r, al, b))
+                        else:
+                            ops.append("bbin %d and %d %d %d" % (r, al, b, o2) if rng.random() < 0.5 else "bbin %d and %d %d %d" % (r, al, o2, b))
+                        cs.pop(al, None)
+                        victim = rng.choice([b, b, o2])
+                        if victim != al:
+                            ops.append(rng.choice(["bforget %d %d" % (r, victim), "havoc %d %d" % (r, nv + victim), "forget %d 1 %d" % (r, nv + victim),
+                                                   "bassign %d %d %s" % (r, victim, _bcst(rng, nv)), "bcopy %d %d %d 1" % (r, victim, victim),
+                                                   "bfromint %d %d %d" % (r, victim, rng.randrange(nv)),
+                                                   "bbin %d %s %d %d %d" % (r, rng.choice(["or", "xor", "and"]), victim, victim, rng.randrange(nb))]))
+                            cs.pop(victim, None)
+                        if al not in known:
+                            known.append(al)
+                        focus.append(al)
+                    elif x < 0.70 and nb >= 3:
+                        # select_bool with a decided operand, then (negated) copies of the result
+                        fl = rng.choice(others)
+                        ops.append("bassign %d %d %s" % (r, fl, rng.choice(["C lt E 0 0", "C ne E 0 0", "C lt E 0 1", "C eq E 0 0"])))
+                        cs.pop(fl, None)
+                        rest = [y for y in range(nb) if y not in (b, fl)]
+                        o1 = rng.choice(rest)
+                        if rng.random() < 0.5:
+                            ops.append(rng.choice(["bforget %d %d" % (r, o1), "bforget %d %d" % (r, o1), "bassign %d %d %s" % (r, o1, _bcst(rng, nv))]))
+                        lhs = rng.choice(rest + [fl])
+                        args = rng.choice([(b, o1, fl)] * 3 + [(b, fl, o1)] * 3 + [(o1, b, fl), (o1, fl, b), (fl, b, o1)])
+                        ops.append("bselect %d %d %d %d %d" % ((r, lhs) + args))
+                        cs.pop(lhs, None)
+                        y = rng.choice([z for z in range(nb) if z != lhs])
+                        neg = 1 if rng.random() < 0.7 else 0
+                        ops.append("bcopy %d %d %d %d" % (r, y, lhs, neg))
+                        cs.pop(y, None)
+                        for z in (lhs, y):
+                            if z not in known:
+                                known.append(z)
+                        focus += [y, y, lhs]
+                    elif x < 0.79:
+                        # copy chain
+                        src = b
+                        for _ in range(rng.randint(1, 3)):
+                            dst = rng.randrange(nb)
+                            ops.append("bcopy %d %d %d %d" % (r, dst, src, rng.randrange(2)))
+                            if dst not in known:
+                                known.append(dst)
+                            cs.pop(dst, None)
+                            src = dst
+                        focus.append(src)
+                    elif x < 0.88:
+                        b1 = rng.choice(known)
+                        dst = rng.randrange(nb)
+                        ops.append("bbin %d %s %d %d %d" % (r, rng.choice(["and", "and", "or", "xor"]), dst, b, b1))
+                        if dst not in known:
+                            known.append(dst)
+                        cs.pop(dst, None)
+                        focus.append(dst)
+                    else:
+                        ops.append(_bool_op(rng, r, nv, nb, known))
+                        cs.pop(int(ops[-1].split()[2]) if not ops[-1].startswith("bbin") else int(ops[-1].split()[3]), None)
+            def pick():
+                return rng.choice(focus) if focus and rng.random() < 0.75 else rng.choice(known)
+            # combine
+            res = 0
+            if two:
+                op = rng.choice(["join", "join", "join", "meet", "meet", "widen", "narrow", "widenthr"])
+                a, b_ = rng.choice([(0, 1), (1, 0)])
+                if prop == "C04" or rng.random() < 0.3:
+                    for (s, t) in ((0, 1), (1, 0)):
+                        ops.append("q_leq %d %d" % (s, t))
+                        ops.append("leqprobe 3 %d %d %d %d" % (s, t, pick(), rng.randrange(2)))
+                        if rng.random() < 0.5:
+                            ops.append("leqprobe 3 %d %d %d %d" % (s, t, pick(), rng.randrange(2)))
+                ops.append("%s 2 %d %d%s" % (op, a, b_, " 2 -1 2" if op == "widenthr" else ""))
+                res = 2
+                if prop == "C04" or rng.random() < 0.3:
+                    s = rng.choice([0, 1])
+                    pair = (s, 2) if op in ("join", "widen", "widenthr") else (2, s)
+                    ops.append("q_leq %d %d" % pair)
+                    ops.append("leqprobe 3 %d %d %d %d" % (pair[0], pair[1], pick(), rng.randrange(2)))
+            # observe
+            if rng.random() < 0.3:
+                ops.append("q_bat %d %d" % (res, rng.choice(known)))
+            for _ in range(rng.choice([1, 1, 2])):
+                ops.append("bassume %d %d %d" % (res, pick(), 0 if rng.random() < 0.75 else 1))
+            ops.append("q_csts %d" % res)
+            for b in range(nb):
+                ops.append("q_bat %d %d" % (res, b))
+            if rng.random() < 0.3:
+                v = rng.randrange(nv)
+                ops.append("q_entails %d C le E 1 %d %d %d" % (res, rng.choice([1, -1]), v, rng.randint(-3, 3)))
+        l = head + " ; " + " ; ".join(ops)
+        if asc_widen:
+            l = ascending_widen(l)
+        out.append(l)
+    return out
+
+
+def bool_oracle(line, ans, checks):
+    """domhist.oracle with a denser sample of small stores (the constants of the bool stream are
+    in [-3, 3]) so that both truth values of every reified constraint are populated"""
+    if ans.startswith("ABORT") or ans == "MISSING" or ans.startswith("HARNESS-ERROR"):
+        return None
+    ans = drop_ghost_csts(ans)
+    return domhist.oracle(line, ans, None, checks, dense=(260, 5))
+
+
 # ---------------------------------------------------------------- extended oracle
 
 def oracle_ext(line, ans, rng=None, checks=("at", "leq", "entails", "csts", "bot")):
